@@ -23,6 +23,15 @@ VARIABLES gen, ev, out
 vars == <<gen, ev, out>>
 view == <<gen, ev>>     \* the outcome is an output, not part of the state the history is made of
 
+\* Post-generation operations are part of the configuration.  The replay runs every behaviour under three OpModes:
+\*   "none"   no operation;
+\*   "own"    every generator is given an operation object of its own;
+\*   "shared" the caller keeps ONE operation object and registers it with every generator he creates or re-initialises
+\*            (operations are held by shared pointer): OpUsers are then all live generators, and whatever Destroy or
+\*            ResetReinit of one of them does to the object is seen by the others.
+OpModes == {"none", "own", "shared"}
+OpUsers(mode) == IF mode = "shared" THEN {g \in Gens : gen[g].st = "init"} ELSE {}
+
 Absent == [st |-> "absent", cfg |-> "none", prev |-> "none", shots |-> "none"]
 \* shots: "none" (never shot), "few", "many" - how much the instance was used since its last initialisation
 \* prev : whether the slot was initialised before its last reset with the same or with another configuration ("none" if never)
